@@ -20,7 +20,9 @@ def make_row(rng, name, nrows):
     if name == "sites":
         return dict(position=rng.choice([0.0, 0.5, 7.0]), ancestral_state=rng.choice(["", "A", "ACGT"]), metadata=rnd_bytes(rng))
     if name == "mutations":
-        return dict(site=rng.randrange(4), node=rng.randrange(4), derived_state=rng.choice(["", "T", "GG"]), parent=ref(),
+        # parents may also be rows stored later in the table (legal for tables; keep_rows must remap them too)
+        return dict(site=rng.randrange(4), node=rng.randrange(4), derived_state=rng.choice(["", "T", "GG"]),
+                    parent=rng.randrange(-1, nrows + 3) if f() < 0.4 else ref(),
                     metadata=rnd_bytes(rng), time=rng.choice([tskit.UNKNOWN_TIME, 0.5, 2.0]))
     if name == "migrations":
         return dict(left=0.0, right=rng.choice([1.0, 2.0]), node=rng.randrange(4), source=rng.randrange(3), dest=rng.randrange(3),
@@ -109,13 +111,17 @@ def main():
                         keep = [run.rng.random() < 0.6 for _ in model]
                         if name == "mutations":
                             # a kept row must not reference a dropped parent
-                            for j, r in enumerate(model):
-                                par = dict(r)["parent"]
-                                if keep[j] and par != -1 and (par >= len(model) or not keep[par]):
-                                    keep[j] = False
                             ok = all(dict(r)["parent"] < len(model) for r in model)
                             if not ok:
                                 continue
+                            changed = True
+                            while changed:          # references may point forwards: drop until stable
+                                changed = False
+                                for j, r in enumerate(model):
+                                    par = dict(r)["parent"]
+                                    if keep[j] and par != -1 and not keep[par]:
+                                        keep[j] = False
+                                        changed = True
                         if name == "individuals":
                             ok = all(all(p < len(model) for p in dict(r)["parents"]) for r in model)
                             if not ok:
@@ -185,6 +191,56 @@ def main():
                 break
         if run.violations:
             break
+    # keep_rows on the two self-referencing tables with references pointing anywhere in the table (backwards and
+    # forwards): kept rows in order, every reference remapped through the id map, dangling references rejected
+    for k in range(run.budget(400, 4000)):
+        if run.violations:
+            break
+        n = run.rng.randint(1, 7)
+        tc = tskit.TableCollection(10.0)
+        which = run.rng.choice(["mutations", "individuals"])
+        refs = []
+        for j in range(n):
+            if which == "mutations":
+                par = run.rng.randrange(-1, n)
+                refs.append([par])
+                tc.mutations.add_row(site=j % 3, node=j, derived_state="ACGT"[j % 4] * (j % 3), parent=par, metadata=b"m%d" % j)
+            else:
+                ps = [run.rng.randrange(-1, n) for _ in range(run.rng.randint(0, 3))]
+                refs.append(ps)
+                tc.individuals.add_row(flags=j, location=[float(j)] * (j % 3), parents=ps, metadata=b"i%d" % j)
+        tab = getattr(tc, which)
+        keep = [run.rng.random() < 0.65 for _ in range(n)]
+        dangling = any(keep[j] and any(p != -1 and not keep[p] for p in refs[j]) for j in range(n))
+        before = table_rows(tab)
+        desc = {"table": which, "references": refs, "keep": keep}
+        run.case()
+        try:
+            idmap = tab.keep_rows(np.array(keep, dtype=bool))
+        except tskit.LibraryError as e:
+            if not dangling:
+                run.violation("keep_rows accepts a mask without dangling references", desc, str(e), "no exception")
+            elif table_rows(tab) != before:
+                run.violation("a rejected keep_rows leaves the table unchanged", desc, table_rows(tab), before)
+            continue
+        if dangling:
+            run.violation("keep_rows rejects a kept row that references a dropped row", desc, "accepted", "LibraryError")
+            continue
+        newid, exp = {}, []
+        for j in range(n):
+            if keep[j]:
+                newid[j] = len(newid)
+        key = "parent" if which == "mutations" else "parents"
+        for j in range(n):
+            if keep[j]:
+                r = dict(before[j])
+                r[key] = (newid[r[key]] if r[key] != -1 else -1) if which == "mutations" else \
+                    tuple(newid[p] if p != -1 else -1 for p in r[key])
+                exp.append(tuple(sorted(r.items())))
+        got = [tuple(sorted(dict(r).items())) for r in table_rows(tab)]
+        if got != exp or list(map(int, idmap)) != [newid.get(j, -1) for j in range(n)]:
+            run.violation("keep_rows keeps the chosen rows in order and remaps every self-reference (backward or forward)",
+                          desc, {"rows": got, "id_map": list(map(int, idmap))}, {"rows": exp})
     # immutability of tree sequences
     for k in range(run.budget(15, 100)):
         t = O.random_tables(run.rng, sites=True, individuals=True, populations=True)
@@ -218,4 +274,4 @@ def main():
 
 
 if __name__ == "__main__":
-    main()
+    O.run_main(main)
